@@ -38,6 +38,10 @@ IR_RUNS.update({
                          ("MC", "hier_edit", 10, 400), ("MC", "hier_walk", 16, 1500)]},
     "C07": {"quick": [("MC", "clone", 2), ("MC", "clone_edit", 0)],
             "thorough": [("MC", "clone", 5), ("MC", "clone", 10, 60), ("MC", "clone_edit", 1)]},
+    "C05": {"quick": [("MC", "edif_read", 2), ("MC", "edif_read1", 1), ("MC", "edif_read", 10, 8)],
+            "thorough": [("MC", "edif_read", 3), ("MC", "edif_read1", 3), ("MC", "edif_read", 12, 200)]},
+    "C03": {"quick": [("MC", "edif_rt", 3), ("MC", "edif_rt2", 2), ("MC", "edif_rt", 10, 40)],
+            "thorough": [("MC", "edif_rt", 4), ("MC", "edif_rt1", 4), ("MC", "edif_rt", 12, 1500)]},
     "C20": {"quick": [("MC", "compare", 0)], "thorough": [("MC", "compare", 0)]},
     "C13": {"quick": [("MC", "query", 1)], "thorough": [("MC", "query", 30)]},
     "C08": {"quick": [("MC", "xf", 3), ("MC", "xf_port", 4), ("MC", "xf", 12, 40)],
@@ -48,6 +52,14 @@ IR_RUNS.update({
             "thorough": [("MC", "hier12", 5), ("MC", "hier12", 14, 1000)]},
 })
 IR_RULE = {
+    "C05": "abstract designs = reachable states of the fully named build scope (three libraries with cross-library "
+           "references, bus port, bus nets with base indices, properties, any declaration order); each is rendered by the "
+           "independent writer conform/edif_text.py under all 48 combinations of render options (rename constructs, "
+           "upper-case references, ascending/descending/mixed bit order, comments, omitted interior empty bits) and parsed "
+           "by the real reader; distinct_nontrivial counts distinct (design, options) pairs",
+    "C03": "the same design space written by the real EDIF writer, read back by the independent reader "
+           "(C03_FileSaysDesign) and by the real reader (C03_ReaderAccepts, C03_RoundTrip); distinct_nontrivial counts "
+           "distinct designs inside the property's domain",
     "C20": "a named two-library design (bus port, directions, properties, cross-library references) is built twice; "
            "Comparer is run on the pair as built, on (netlist, clone), and after every single structural mutation of one of "
            "them (drop / add one library, definition, port, cable, instance, pin, wire; change a direction, array-ness; "
@@ -274,4 +286,4 @@ def ir_history(pid, tier, seed, replay=None, runs=None, strict=True):
 
 
 HANDLERS = {"C01": ir_history, "C02": ir_history, "C14": ir_history, "C10": ir_history, "C19": ir_history, "C11": ir_history,
-            "C12": ir_history, "C08": ir_history, "C09": ir_history, "C07": ir_history, "C13": ir_history, "C20": ir_history}
+            "C12": ir_history, "C08": ir_history, "C09": ir_history, "C07": ir_history, "C13": ir_history, "C20": ir_history, "C05": ir_history, "C03": ir_history}
